@@ -285,18 +285,24 @@ def run(ctx):
             ("exact_model", lambda: ExactModel(Sphere(n=prior.Gaussian(1.5, 0.1), r=0.5, center=C3), medium_index=1.33,
                                                illum_wavelen=0.66, illum_polarization=(1, 0), noise_sd=0.1)),
         ]
-        for name, mk in extra:
-            ctx.case(("model", name))
+        # three consecutive cycles each, and the whole list twice: what was loaded before (a constrained model
+        # in particular) must not show in what is loaded next
+        for rnd, (name, mk) in enumerate(extra + extra):
+            ctx.case(("model", name, rnd // len(extra)))
             try:
                 with warnings.catch_warnings(record=True) as w:
                     warnings.simplefilter("always")
                     m = mk()
-                    m2 = roundtrip(m, "stream", tmp, 0)
+                    m2 = m
+                    for cyc in range(3):
+                        m2 = roundtrip(m2, "stream" if cyc != 1 else "file", tmp, 0)
                 same = (list(m.parameters) == list(m2.parameters) and type(m2.theory) is type(m.theory)
                         and norm(m.scatterer) == norm(m2.scatterer) and dump_text(m) == dump_text(m2)
                         and not any("inconsisten" in str(x.message) for x in w))
                 if name == "constraint":
                     same = same and len(m2.constraints) == 1 and m2.constraints[0].fraction == 0.2
+                else:
+                    same = same and len(m2.constraints) == 0
                 if not same:
                     ctx.violation("model/%s/changed" % name, {"orig": list(m.parameters), "loaded": list(m2.parameters)})
                 else:
